@@ -8,15 +8,66 @@ CHECKJUMP = 'pygom.model.stochastic_simulation:_checkJump'
 
 
 def _lims(vc, n):
-    lo_none = vc.fn('lo_none', z3.IntSort(), z3.BoolSort())
-    hi_none = vc.fn('hi_none', z3.IntSort(), z3.BoolSort())
-    lo = vc.fn('lo', z3.IntSort(), z3.RealSort())
-    hi = vc.fn('hi', z3.IntSort(), z3.RealSort())
+    lo_none = vc.array('lo_none', (n,), 'bool').fn
+    hi_none = vc.array('hi_none', (n,), 'bool').fn
+    lo = vc.array('lo', (n,)).fn
+    hi = vc.array('hi', (n,)).fn
     lims = SList(n, lambda k: (SOpt(lo_none(k), lo(k)), SOpt(hi_none(k), hi(k))))
     return lims, lo_none, lo, hi_none, hi
 
 
-@contract('C11/checkJump', ['C11', 'C04'], CHECKJUMP)
+def _native_checkjump(x, x_new, lims, t, tau):
+    """run the real _checkJump and evaluate the contract's postcondition natively"""
+    import numpy as np
+    from contracts import native
+    ss = native.imp('pygom.model.stochastic_simulation')
+    xa, xn = np.array(x, float), np.array(x_new, float)
+    jumps = [0]
+    with native.quiet():
+        t_new, jt, x_out, j_out, success = ss._checkJump(xa, xn, lims, t, tau, jumps)
+    within = all((lo is None or v >= lo) and (hi is None or v <= hi) for v, (lo, hi) in zip(x_new, lims))
+    bad = []
+    if bool(success) != within:
+        bad.append("success=%s but all-within-limits=%s" % (success, within))
+    if success and not (t_new == t + tau and x_out is xn):
+        bad.append("accepted step does not advance to (t+tau, proposal)")
+    if (not success) and not (t_new == t and x_out is xa):
+        bad.append("rejected step changed state or time")
+    if jt != tau or j_out is not jumps:
+        bad.append("step or jumps not passed through")
+    return bad
+
+
+def replay_checkjump(clause, m):
+    """counter-model -> concrete call of the real function; falls back to a small exhaustive
+    enumeration when the model describes a mid-loop state rather than an input"""
+    import itertools
+    from contracts.native import opt
+    n = m.get('n', 0)
+    tried = []
+    if isinstance(n, int) and 0 <= n <= 8 and isinstance(m.get('x_new'), list):
+        lims = [(opt(m['lo_none'][i], m['lo'][i]), opt(m['hi_none'][i], m['hi'][i])) for i in range(n)]
+        case = dict(x=m['x'], x_new=m['x_new'], lims=lims, t=m['t'], tau=m['tau'])
+        bad = _native_checkjump(**case)
+        tried.append(case)
+        if bad:
+            return {'reproduced': True, 'input': case, 'observed': bad}
+    vals = [-1.0, 0.0, 1.0]
+    limv = [None, 0.0, 1.0]
+    for nn in (1, 2):
+        for xs in itertools.product(vals, repeat=nn):
+            for ls in itertools.product(itertools.product(limv, limv), repeat=nn):
+                case = dict(x=[0.0] * nn, x_new=list(xs), lims=list(ls), t=1.0, tau=0.5)
+                try:
+                    bad = _native_checkjump(**case)
+                except TypeError as e:
+                    bad = ["TypeError: %s" % e]
+                if bad:
+                    return {'reproduced': True, 'input': case, 'observed': bad, 'found_by': 'bounded enumeration around the model (n<=2, values in {-1,0,1}, limits in {None,0,1})'}
+    return {'reproduced': False, 'tried': tried[:1], 'searched': 'n<=2, values in {-1,0,1}, limits in {None,0,1}'}
+
+
+@contract('C11/checkJump', ['C11', 'C04'], CHECKJUMP, replay=replay_checkjump)
 def check_jump(vc):
     """_checkJump accepts exactly the proposals inside every declared limit; a rejected proposal
     leaves state and time unchanged, an accepted one advances time by the step."""
